@@ -1,0 +1,49 @@
+//go:build verif
+
+// Contracts for the verifier in /verif (comment-only; compiled only with -tags verif).
+
+package facproof
+
+//@ global one != nil && val(one) == 1 && rangeParameter != nil
+
+//@ define wfFac(pf) = pf.P != nil && pf.Q != nil && pf.A != nil && pf.B != nil && pf.T != nil && pf.Sigma != nil && pf.Z1 != nil && pf.Z2 != nil && pf.W1 != nil && pf.W2 != nil && pf.V != nil
+//@ define nnFac(pf) = val(pf.P) >= 0 && val(pf.Q) >= 0 && val(pf.A) >= 0 && val(pf.B) >= 0 && val(pf.T) >= 0 && val(pf.Sigma) >= 0 && val(pf.Z1) >= 0 && val(pf.Z2) >= 0 && val(pf.W1) >= 0 && val(pf.W2) >= 0 && val(pf.V) >= 0
+//@ define q3f(c) = curveN(c) * (curveN(c) * curveN(c))
+// challenge: H_tag(Session; N0, NCap, s, t, P, Q, A, B, T, sigma) mod q
+//@ define chalFac(Session, c, n0, ncap, s, t, P, Q, A, B, T, sig) = tagged(Session, fr(fr(fr(fr(fr(fr(fr(fr(fr(fr(le64(10), n0), ncap), s), t), P), Q), A), B), T), sig)) % curveN(c)
+
+//@ func (*ProofFac).ValidateBasic
+//@   props C06
+//@   requires pf != nil
+//@   ensures result <==> wfFac(pf)
+
+//@ func NewProofFromBytes
+//@   props C06 C10
+//@   ensures result1 != nil ==> result0 == nil
+//@   ensures [C10.arity] result1 == nil ==> (len(bzs) == 11 && result0 != nil && fresh(result0) && wfFac(result0) && nnFac(result0))
+//@   ensures [C10.decode] result1 == nil ==> (val(result0.P) == beint(bytes(bzs[0])) && val(result0.Q) == beint(bytes(bzs[1])) && val(result0.A) == beint(bytes(bzs[2])) && val(result0.B) == beint(bytes(bzs[3])) && val(result0.T) == beint(bytes(bzs[4])) && val(result0.Sigma) == beint(bytes(bzs[5])) && val(result0.Z1) == beint(bytes(bzs[6])) && val(result0.Z2) == beint(bytes(bzs[7])) && val(result0.W1) == beint(bytes(bzs[8])) && val(result0.W2) == beint(bytes(bzs[9])) && val(result0.V) == beint(bytes(bzs[10])))
+
+//@ func (*ProofFac).Bytes
+//@   props C06 C10
+//@   requires pf != nil && wfFac(pf)
+//@   ensures [C10.encode] bytes(result[0]) == be(val(pf.P)) && bytes(result[1]) == be(val(pf.Q)) && bytes(result[2]) == be(val(pf.A)) && bytes(result[3]) == be(val(pf.B)) && bytes(result[4]) == be(val(pf.T)) && bytes(result[5]) == be(val(pf.Sigma)) && bytes(result[6]) == be(val(pf.Z1)) && bytes(result[7]) == be(val(pf.Z2)) && bytes(result[8]) == be(val(pf.W1)) && bytes(result[9]) == be(val(pf.W2)) && bytes(result[10]) == be(val(pf.V))
+
+//@ func (*ProofFac).Verify
+//@   props C06 C11 C12 C05
+//@   requires (ec != nil ==> okCurve(ec)) && len(Session) <= 1048576
+//@   requires pf != nil ==> (wfFac(pf) ==> nnFac(pf))
+//@   ensures result ==> (pf != nil && wfFac(pf) && N0 != nil && NCap != nil && s != nil && t != nil && val(N0) > 0 && val(NCap) > 0)
+//@   ensures [C11.z-ranges] result ==> (0 <= val(pf.Z1) && val(pf.Z1) < q3f(ec) * isqrt(val(N0)) && 0 <= val(pf.Z2) && val(pf.Z2) < q3f(ec) * isqrt(val(N0)))
+//@   ensures [C12.equation-1] result ==> (powmod(val(s), val(pf.Z1), val(NCap)) * powmod(val(t), val(pf.W1), val(NCap))) % val(NCap) == (val(pf.A) * powmod(val(pf.P), chalFac(Session, ec, val(N0), val(NCap), val(s), val(t), val(pf.P), val(pf.Q), val(pf.A), val(pf.B), val(pf.T), val(pf.Sigma)), val(NCap))) % val(NCap)
+//@   ensures [C12.equation-2] result ==> (powmod(val(s), val(pf.Z2), val(NCap)) * powmod(val(t), val(pf.W2), val(NCap))) % val(NCap) == (val(pf.B) * powmod(val(pf.Q), chalFac(Session, ec, val(N0), val(NCap), val(s), val(t), val(pf.P), val(pf.Q), val(pf.A), val(pf.B), val(pf.T), val(pf.Sigma)), val(NCap))) % val(NCap)
+//@   ensures [C12.equation-3] result ==> (powmod(val(pf.Q), val(pf.Z1), val(NCap)) * powmod(val(t), val(pf.V), val(NCap))) % val(NCap) == (val(pf.T) * powmod((powmod(val(s), val(N0), val(NCap)) * powmod(val(t), val(pf.Sigma), val(NCap))) % val(NCap), chalFac(Session, ec, val(N0), val(NCap), val(s), val(t), val(pf.P), val(pf.Q), val(pf.A), val(pf.B), val(pf.T), val(pf.Sigma)), val(NCap))) % val(NCap)
+
+//@ func NewProof
+//@   props C06 C10 C12
+//@   requires (ec != nil ==> okCurve(ec)) && rand != nil && len(Session) <= 1048576
+//@   requires [parameter-sizes] (N0 != nil ==> (val(N0) > 0 && bitlen(val(N0)) <= 2100)) && (NCap != nil ==> (val(NCap) > 0 && bitlen(val(NCap)) <= 2100))
+//@   requires [nonnegative-witness] (N0p != nil ==> val(N0p) >= 0) && (N0q != nil ==> val(N0q) >= 0)
+//@   ensures result1 != nil ==> result0 == nil
+//@   ensures result1 == nil ==> (result0 != nil && fresh(result0) && wfFac(result0))
+//@   ensures [C10.commitments] result1 == nil ==> (val(result0.P) == (powmod(old(val(s)), old(val(N0p)), old(val(NCap))) * powmod(old(val(t)), sample(2), old(val(NCap)))) % old(val(NCap)) && val(result0.Q) == (powmod(old(val(s)), old(val(N0q)), old(val(NCap))) * powmod(old(val(t)), sample(3), old(val(NCap)))) % old(val(NCap)) && val(result0.A) == (powmod(old(val(s)), sample(0), old(val(NCap))) * powmod(old(val(t)), sample(6), old(val(NCap)))) % old(val(NCap)) && val(result0.B) == (powmod(old(val(s)), sample(1), old(val(NCap))) * powmod(old(val(t)), sample(7), old(val(NCap)))) % old(val(NCap)) && val(result0.Sigma) == sample(4))
+//@   ensures [C10.responses] result1 == nil ==> (val(result0.Z1) == chalFac(Session, ec, old(val(N0)), old(val(NCap)), old(val(s)), old(val(t)), val(result0.P), val(result0.Q), val(result0.A), val(result0.B), val(result0.T), val(result0.Sigma)) * old(val(N0p)) + sample(0) && val(result0.Z2) == chalFac(Session, ec, old(val(N0)), old(val(NCap)), old(val(s)), old(val(t)), val(result0.P), val(result0.Q), val(result0.A), val(result0.B), val(result0.T), val(result0.Sigma)) * old(val(N0q)) + sample(1))
